@@ -346,3 +346,21 @@ func sortedKeys(m map[string]bool) []string {
 }
 
 var _ = ssa.NaiveForm
+
+// subObjects lists the embedded (struct-typed field) objects of the object ref of struct type t
+func (c *Ctx) subObjects(st *State, ref Term, t types.Type, depth int) []Term {
+	s, owner := structOf(t)
+	if s == nil || depth > 3 {
+		return nil
+	}
+	var out []Term
+	for i := 0; i < s.NumFields(); i++ {
+		fi := c.fieldByIndex(owner, i)
+		if isRepoStruct(fi.GoT) {
+			sub := c.loadField(st, ref, fi)
+			out = append(out, sub)
+			out = append(out, c.subObjects(st, sub, fi.GoT, depth+1)...)
+		}
+	}
+	return out
+}
